@@ -285,6 +285,26 @@ Section Model.
     end.
 End Model.
 
+(* ---------- the in-memory Store (memory_store.go): a map address -> credential;
+   Put accepts everything, the FileStore's colon rule is applied by the caller
+   of this reference ([mem_step] refuses like the FileStore so that the two can be
+   compared operation by operation) ---------- *)
+Definition mem_step (m : list (str * cred)) (o : op) : list (str * cred) * result :=
+  match o with
+  | Get a => (m, RCred (match lookup a m with Some c => c | None => empty_cred end))
+  | Put a c => if contains colon (c_user c) then (m, RErrBadCred) else (set a c m, ROk)
+  | Delete a => (del a m, ROk)
+  end.
+
+Fixpoint mem_results (m : list (str * cred)) (h : list op) : list result :=
+  match h with
+  | [] => []
+  | o :: h' => snd (mem_step m o) :: mem_results (fst (mem_step m o)) h'
+  end.
+
+Definition op_addr (o : op) : str :=
+  match o with Get a | Put a _ | Delete a => a end.
+
 (* ---------- history: Load before the fix "a config file holding JSON null no
    longer makes Put panic".  json.Decode of the document `null` left
    Config.content a nil map: reads and deletes on it are fine, the assignment
